@@ -453,3 +453,66 @@ Example C17_gen_example :
 Proof. vm_compute. first [exact I | reflexivity]. Qed.
 
 End GenAgreeMeasures_C17.
+
+(* ---- WIRING-APPENDIX:BEGIN (generated by tools/gen_wiring_props.py; do not edit) ---- *)
+From CC Require Proofs.GenAgreeWiring_C17.
+Section Wiring_C17.
+Import Coq.Lists.List Coq.ZArith.ZArith Coq.Strings.String CC.Base.WiringExp CC.Gen.WiringSrc.
+Import ListNotations.
+Local Open Scope string_scope.
+
+Theorem C17_wiring_CubePartition_population_fraction :
+  wsrc_CubePartition_population_fraction = Some (WAttr (WSelf "_cube") "population_fraction").
+Proof. exact Proofs.GenAgreeWiring_C17.gen_wiring_CubePartition_population_fraction. Qed.
+Print Assumptions C17_wiring_CubePartition_population_fraction.
+
+Theorem C17_wiring_Slice_population_proportions :
+  wsrc_Slice_population_proportions = Some (WSetNan (WSetNan (w_matrix_of "population_proportions")
+      [WSelf "diff_row_idxs"; WSlice (WNone) (WNone)] (WSelf "diff_row_idxs")) [WSlice (WNone)
+      (WNone); WSelf "diff_column_idxs"] (WSelf "diff_column_idxs")).
+Proof. exact Proofs.GenAgreeWiring_C17.gen_wiring_Slice_population_proportions. Qed.
+Print Assumptions C17_wiring_Slice_population_proportions.
+
+Theorem C17_wiring_Slice_population_counts :
+  wsrc_Slice_population_counts = Some (WBin "*" (WBin "*" (WSelf "population_proportions") (WSelf
+      "_population")) (WAttr (WSelf "_cube") "population_fraction")).
+Proof. exact Proofs.GenAgreeWiring_C17.gen_wiring_Slice_population_counts. Qed.
+Print Assumptions C17_wiring_Slice_population_counts.
+
+Theorem C17_wiring_Slice_population_std_err :
+  wsrc_Slice_population_std_err = Some (w_matrix_of "population_std_err").
+Proof. exact Proofs.GenAgreeWiring_C17.gen_wiring_Slice_population_std_err. Qed.
+Print Assumptions C17_wiring_Slice_population_std_err.
+
+Theorem C17_wiring_Slice_population_counts_moe :
+  wsrc_Slice_population_counts_moe = Some (WBin "*" (WBin "*" (WGlobal "Z_975") (WBin "*" (WSelf
+      "_population") (WAttr (WSelf "_cube") "population_fraction"))) (WSelf "population_std_err")).
+Proof. exact Proofs.GenAgreeWiring_C17.gen_wiring_Slice_population_counts_moe. Qed.
+Print Assumptions C17_wiring_Slice_population_counts_moe.
+
+Theorem C17_wiring_Strand_population_counts :
+  wsrc_Strand_population_counts = Some (WBin "*" (WBin "*" (WSelf "population_proportions") (WSelf
+      "_population")) (WAttr (WSelf "_cube") "population_fraction")).
+Proof. exact Proofs.GenAgreeWiring_C17.gen_wiring_Strand_population_counts. Qed.
+Print Assumptions C17_wiring_Strand_population_counts.
+
+Theorem C17_wiring_Strand_population_counts_moe :
+  wsrc_Strand_population_counts_moe = Some (WBin "*" (WBin "*" (WGlobal "Z_975") (WBin "*" (WSelf
+      "_population") (WAttr (WSelf "_cube") "population_fraction"))) (WSelf
+      "population_proportion_stderrs")).
+Proof. exact Proofs.GenAgreeWiring_C17.gen_wiring_Strand_population_counts_moe. Qed.
+Print Assumptions C17_wiring_Strand_population_counts_moe.
+
+Theorem C17_wiring_Strand_population_proportions :
+  wsrc_Strand_population_proportions = Some (WSetNan (w_vector_of "population_proportions") [WCall
+      (WGlobal "list") [WSelf "diff_row_idxs"] []] (WSelf "diff_row_idxs")).
+Proof. exact Proofs.GenAgreeWiring_C17.gen_wiring_Strand_population_proportions. Qed.
+Print Assumptions C17_wiring_Strand_population_proportions.
+
+Theorem C17_wiring_Strand_population_proportion_stderrs :
+  wsrc_Strand_population_proportion_stderrs = Some (w_vector_of "population_proportion_stderrs").
+Proof. exact Proofs.GenAgreeWiring_C17.gen_wiring_Strand_population_proportion_stderrs. Qed.
+Print Assumptions C17_wiring_Strand_population_proportion_stderrs.
+
+End Wiring_C17.
+(* ---- WIRING-APPENDIX:END ---- *)
